@@ -40,8 +40,8 @@ def main(chk: core.Check, replay):
     structural.run(chk, "C05")
     # every backend: the C module (inputs are const arrays, compared after the call) and the jitted JAX module
     # called with JAX arrays (a donated buffer is a modified input)
-    structural.run(chk, "C05", backend="c", quick_models=20, thorough_models=300)
-    structural.run(chk, "C05", backend="jax-jit", quick_models=8, thorough_models=100)
+    structural.run(chk, "C05", backend="c", quick_models=20, thorough_models=120)
+    structural.run(chk, "C05", backend="jax-jit", quick_models=8, thorough_models=40)
     aliases(chk)
 
 
